@@ -1,4 +1,5 @@
 import Proofs.Lemmas.HeapSpecLocal
+import Generated.C06ScalarWrites
 /-!
 # C06 — arrays are values: writes through a copy never show through the original
 
@@ -386,7 +387,103 @@ theorem C06_concat_witness_outcomes :
     sobs (abs (run .shallow 2 concatWitness)) 0 = [.str [97, 98], .str [99, 100, 122], .int 7] := by
   decide
 
+/-! ### Regenerated facts: the two conventions the sharing of scalar elements rests on
+
+Copies of an array share the `*ZVal` cells of their scalar elements and the scalar value
+objects in them.  That is sound only as long as (1) no scalar value object is changed after
+construction and (2) no cell of an array's slot list is written in place unless it is bound by
+an explicit `&`.  No Go type enforces either; `extract/c06` lists, from the type-checked source
+of every package linked into the interpreter, every site that could break them
+(`Generated.C06ScalarWrites`), and the two theorems below say that the list holds nothing but
+the sites examined here.  A new `x.Value += …` on a `*StringValue`, a new `list[i].Value = v`
+on a slot, breaks `lake build`. -/
+
+open Model.ScalarSites
+
+/-- sites (file, function, struct, kind) that write a scalar value object after construction,
+each with the reason it cannot be observed through another holder of that object -/
+def knownScalarWrites : List (String × String × String × String) := [
+  -- `ReferenceValue.Scan` (target of database/sql `Scan`) updates the variable's current value
+  -- object when the variable has no declared type. Latent: its only script-level entry points,
+  -- `Database\Sql` `Rows::scan` / `Row::scan`, fail in their by-reference variadic binding
+  -- before they get here (checked on the CLI); if it becomes reachable it must store a new
+  -- value (`SetVariableValue`) like its `assignTo…Type` siblings do.
+  ("data/value_reference.go", "ReferenceValue.updateIntValue", "IntValue", "assign"),
+  ("data/value_reference.go", "ReferenceValue.updateFloatValue", "FloatValue", "assign"),
+  ("data/value_reference.go", "ReferenceValue.updateStringValue", "StringValue", "assign"),
+  ("data/value_reference.go", "ReferenceValue.updateBoolValue", "BoolValue", "assign"),
+  -- `Serializer.Unmarshal…(data, v)`: decodes JSON into the object it is handed. Its caller
+  -- `unmarshalWithExpected` hands it a freshly created object (fix C06-8; before, it handed the
+  -- property's current value object, so `json_decode($json, 'K')` rewrote K's default values and
+  -- every array element sharing them — expectation `json-decode-class-default` of the harness).
+  ("std/serializer/json/json_serializer.go", "JsonSerializer.UnmarshalInt", "IntValue", "addr"),
+  ("std/serializer/json/json_serializer.go", "JsonSerializer.UnmarshalString", "StringValue", "addr"),
+  ("std/serializer/json/json_serializer.go", "JsonSerializer.UnmarshalBool", "BoolValue", "addr"),
+  ("std/serializer/json/json_serializer.go", "JsonSerializer.UnmarshalFloat", "FloatValue", "addr")]
+
+/-- unguarded writes (file, function, field) to a cell taken from an array's slot list that are
+fine because the array was built in the same call and nobody else holds it yet -/
+def knownSlotWrites : List (String × String × String) := [
+  -- a later `'k' => v` of an array literal overwrites an earlier one: the literal under construction
+  ("node/array.go", "setArrayLiteralEntry", "Value"),
+  -- names the slots of the result array it has just built from values
+  ("std/php/array/array_intersect_key.go", "ArrayIntersectKeyFunction.Call", "Name")]
+
+def scalarWriteViolations (tbl : List ScalarWrite) : List ScalarWrite :=
+  tbl.filter (fun w => !(knownScalarWrites.contains (w.file, w.fn, w.typ, w.kind)))
+
+/-- a write to a slot cell is fine when guarded by `RefSlotCount > 0` (the slot is bound by an
+explicit `&`: write-through is the point), when the cell is the array's own (`OwnSlot`), or
+when it is one of the examined sites -/
+def slotWriteViolations (tbl : List CellWrite) : List CellWrite :=
+  tbl.filter (fun w => w.origin == "slot" && !w.guarded && !(knownSlotWrites.contains (w.file, w.fn, w.field)))
+
+/-- what the decidable check means, for any table -/
+theorem scalarWrites_sound (tbl : List ScalarWrite) (h : scalarWriteViolations tbl = []) :
+    ∀ w ∈ tbl, (w.file, w.fn, w.typ, w.kind) ∈ knownScalarWrites := by
+  intro w hw
+  have : w ∉ scalarWriteViolations tbl := by rw [h]; simp
+  simp only [scalarWriteViolations, List.mem_filter, hw, true_and, Bool.not_eq_true, Bool.not_eq_eq_eq_not,
+    Bool.not_false] at this
+  simpa [List.contains_iff_mem] using this
+
+theorem slotWrites_sound (tbl : List CellWrite) (h : slotWriteViolations tbl = []) :
+    ∀ w ∈ tbl, w.origin = "slot" → w.guarded = true ∨ (w.file, w.fn, w.field) ∈ knownSlotWrites := by
+  intro w hw ho
+  have : w ∉ slotWriteViolations tbl := by rw [h]; simp
+  simp only [slotWriteViolations, List.mem_filter, hw, true_and] at this
+  cases hg : w.guarded with
+  | true => exact Or.inl rfl
+  | false =>
+    right
+    simp [ho, hg] at this
+    simpa [List.contains_iff_mem] using this
+
+/-- **No scalar value object is changed in place** anywhere in the interpreter, except at the
+examined sites — regenerated from the source on every run. (`x.Value += …` on the element's
+`*StringValue` in `assignIndexConcat` would be listed as `node/index.go … StringValue opassign`.) -/
+theorem C06_scalar_objects_immutable :
+    (∀ w ∈ Generated.C06ScalarWrites.scalarWrites, (w.file, w.fn, w.typ, w.kind) ∈ knownScalarWrites) ∧
+    Generated.C06ScalarWrites.shapeChanged = [] :=
+  ⟨scalarWrites_sound _ (by decide), by decide⟩
+
+/-- **No cell of an array's slot list is written in place** unless the slot is reference-bound,
+owned, or the array is still private to the function that builds it. -/
+theorem C06_shared_cells_replaced :
+    ∀ w ∈ Generated.C06ScalarWrites.cellWrites, w.origin = "slot" →
+      w.guarded = true ∨ (w.file, w.fn, w.field) ∈ knownSlotWrites :=
+  slotWrites_sound _ (by decide)
+
 /-! ### Non-vacuity -/
+/- the translator looked at the code: packages and functions were examined, the guarded stores of
+   `storeSlot` / `SetIntKey` / `normalizeDenseIntKeys` and the owned stores are in the table -/
+example : 40 ≤ Generated.C06ScalarWrites.packagesChecked ∧ 5000 ≤ Generated.C06ScalarWrites.functionsChecked := by decide
+example : (Generated.C06ScalarWrites.cellWrites.filter (fun w => w.origin == "slot" && w.guarded)).length ≥ 3 := by decide
+example : (Generated.C06ScalarWrites.cellWrites.filter (fun w => w.origin == "owned")).length ≥ 1 := by decide
+/- the checks do reject: an in-place append to a string element's value object, an unguarded slot write -/
+example : scalarWriteViolations [⟨"node/index.go", "assignIndexConcat", "StringValue", "opassign", 0⟩] ≠ [] := by decide
+example : slotWriteViolations [⟨"std/php/array/array_walk.go", "ArrayWalkFunction.Call", "Value", "slot", false, 0⟩] ≠ [] := by decide
+example : slotWriteViolations [⟨"data/value_array.go", "ArrayValue.storeSlot", "Value", "slot", true, 0⟩] = [] := by decide
 /- the hypotheses of `C06_compound_rhs_pure` / `C06_compound_is_store` are satisfiable, for each kind of update -/
 example : Upd.apply (.concat [120]) (.str [97]) = some (.str [97, 120]) ∧ Upd.apply (.concat [120]) (.int (-12)) = some (.str [45, 49, 50, 120]) ∧
     Upd.apply (.add 3) (.int 4) = some (.int 7) ∧ Upd.apply (.mul 3) (.int 4) = some (.int 12) ∧
